@@ -337,7 +337,7 @@ func (w *world) readDuringMove(ctl *sched.Controller, phase string) {
 	var out []res
 	n := 0
 	for _, k := range w.keys {
-		if partitions.HKey(w.dm, k)%c.Opts.Partitions != partID || w.lastPut[k] == "" || n >= 4 {
+		if partitions.HKey(w.dm, k)%c.Opts.Partitions != partID || w.lastPut[k] == "" || n >= 2 {
 			continue
 		}
 		n++
@@ -363,6 +363,36 @@ func (w *world) readDuringMove(ctl *sched.Controller, phase string) {
 			}(k, m, d)
 		}
 	}
+	// ... and a Delete of one more live key of that partition, through a random member: it holds nobody up, it is acknowledged
+	// only when the key is gone, and the table that is under way does not bring the key back
+	type delres struct {
+		k   string
+		via int
+		err error
+	}
+	var dels []delres
+	cnt := 0
+	for _, k := range w.keys {
+		if partitions.HKey(w.dm, k)%c.Opts.Partitions != partID || w.lastPut[k] == "" {
+			continue
+		}
+		cnt++
+		if cnt <= 2 || len(dels) >= 1 {
+			continue // the first two live keys of the partition are the ones being read
+		}
+		live := c.Live()
+		m := live[w.rng.Intn(len(live))]
+		d := w.client(m)
+		dels = append(dels, delres{k: k, via: m.Index})
+		wg.Add(1)
+		go func(i int, k string, d olric.DMap) {
+			defer wg.Done()
+			err := guarded(func() error { _, e := d.Delete(context.Background(), k); return e })
+			mu.Lock()
+			dels[i].err = err
+			mu.Unlock()
+		}(len(dels)-1, k, d)
+	}
 	time.Sleep(40 * time.Millisecond) // the reads have looked at the new owner's fragment and wait for the previous owner's
 	g.Release()
 	wg.Wait()
@@ -371,6 +401,19 @@ func (w *world) readDuringMove(ctl *sched.Controller, phase string) {
 	for _, r := range out {
 		w.evals++
 		w.w.Emit(trace.Ev{"t": "read", "k": r.k, "from": r.from, "v": r.v, "ret": r.ret, "phase": phase, "settled": !w.unsettled, "live": len(c.Live())})
+	}
+	for _, dl := range dels {
+		w.evals++
+		if dl.err == errHang {
+			w.wedged = true
+		}
+		if transport(dl.err) {
+			w.disturbed++
+		}
+		w.w.Emit(trace.Ev{"t": "op", "op": "del", "k": dl.k, "v": "", "ret": classify(dl.err), "indeterminate": transport(dl.err), "via": dl.via, "phase": phase})
+		if w.lastPut != nil {
+			w.lastPut[dl.k] = ""
+		}
 	}
 }
 
